@@ -81,6 +81,12 @@ theorem tplWrites_frame (pre t suf : Bytes) (noesc : Bool) : FrameOK (fun s => t
   obtain ⟨k1, k2⟩ := key s h
   exact ⟨k1, fun pl po k => k2 pl po k⟩
 
+theorem clrErrIf_w' (b : Bool) (s : St) : (clrErrIf b s).w = s.w := by unfold clrErrIf; split <;> rfl
+
+theorem clrErrIf_pre (b : Bool) (s : St) (pl : List Event) (po : Bytes) (k : Nat) :
+    clrErrIf b (s.pre pl po k) = (clrErrIf b s).pre pl po k := by
+  unfold clrErrIf; split <;> rfl
+
 theorem sepWrite_frame (n : Nat) (sep : Bytes) : FrameOK (fun s => sepWrite n sep s) := by
   unfold sepWrite
   by_cases h : (n > 0 && !sep.isEmpty) = true
@@ -200,24 +206,28 @@ theorem cloopLoop_frame (run : St → Res) (hrun : FrameOK run) (ls : CLoopSpec)
         have sw2 : ∀ pl po k, sepWrite n ls.sep ({ (s.pre pl po k) with c := (s.pre pl po k).c.setStatic ls.cnt (Val.int v) } : St) =
             (sepWrite n ls.sep { s with c := s.c.setStatic ls.cnt (Val.int v) }).pre pl po k := sw.2
         generalize hrs : sepWrite n ls.sep { s with c := s.c.setStatic ls.cnt (Val.int v) } = rs at sw1 sw2
-        have hin : ({ rs.st with c := { rs.st.c with chQB := true } } : St).w.failAt = none := sw1
-        have hr := hrun { rs.st with c := { rs.st.c with chQB := true } } hin
-        have r1 : (run { rs.st with c := { rs.st.c with chQB := true } }).st.w.failAt = none := hr.1
-        have r2 : ∀ pl po k, run ({ (rs.st.pre pl po k) with c := { (rs.st.pre pl po k).c with chQB := true } } : St) =
-            (run { rs.st with c := { rs.st.c with chQB := true } }).pre pl po k := hr.2
-        generalize hrb0 : run { rs.st with c := { rs.st.c with chQB := true } } = rb0 at r1 r2
+        have c1w : (clrErrIf (decide (n > 0) && !ls.sep.isEmpty) rs.st).w.failAt = none := by rw [clrErrIf_w']; exact sw1
+        have c1pre : ∀ pl po k, clrErrIf (decide (n > 0) && !ls.sep.isEmpty) (rs.st.pre pl po k) =
+            (clrErrIf (decide (n > 0) && !ls.sep.isEmpty) rs.st).pre pl po k := fun pl po k => clrErrIf_pre _ _ pl po k
+        generalize hr1 : clrErrIf (decide (n > 0) && !ls.sep.isEmpty) rs.st = rs1 at c1w c1pre
+        have hin : ({ rs1 with c := { rs1.c with chQB := true } } : St).w.failAt = none := c1w
+        have hr := hrun { rs1 with c := { rs1.c with chQB := true } } hin
+        have r1 : (run { rs1 with c := { rs1.c with chQB := true } }).st.w.failAt = none := hr.1
+        have r2 : ∀ pl po k, run ({ (rs1.pre pl po k) with c := { (rs1.pre pl po k).c with chQB := true } } : St) =
+            (run { rs1 with c := { rs1.c with chQB := true } }).pre pl po k := hr.2
+        generalize hrb0 : run { rs1 with c := { rs1.c with chQB := true } } = rb0 at r1 r2
         -- the body result with the bracket mode restored
-        let rb : Res := { rb0 with st := { rb0.st with c := { rb0.st.c with chQB := rs.st.c.chQB } } }
+        let rb : Res := { rb0 with st := { rb0.st with c := { rb0.st.c with chQB := rs1.c.chQB } } }
         have hrbw : rb.st.w.failAt = none := r1
         have hio_w : (iterAfterBody rb).st.w.failAt = none := by rw [iterAfterBody_w]; exact hrbw
-        have hrbpre : ∀ pl po k, ({ (rb0.pre pl po k) with st := { (rb0.pre pl po k).st with c := { (rb0.pre pl po k).st.c with chQB := (rs.st.pre pl po k).c.chQB } } } : Res) = rb.pre pl po k :=
+        have hrbpre : ∀ pl po k, ({ (rb0.pre pl po k) with st := { (rb0.pre pl po k).st with c := { (rb0.pre pl po k).st.c with chQB := (rs1.pre pl po k).c.chQB } } } : Res) = rb.pre pl po k :=
           fun _ _ _ => rfl
         constructor
         · rw [cloopLoop]; simp only [hla, hrs]
           cases he : rs.err with
           | some e => exact sw1
           | none =>
-            simp only [hrb0]
+            simp only [hr1, hrb0]
             split
             · cases hio : iterAfterBody rb with
               | abort st => rw [hio] at hio_w; exact hio_w
@@ -234,7 +244,7 @@ theorem cloopLoop_frame (run : St → Res) (hrun : FrameOK run) (ls : CLoopSpec)
           | some e => simp only [Res.pre, he]; rfl
           | none =>
             simp only [Res.pre, he]
-            rw [r2, hrb0, hrbpre, iterAfterBody_pre]
+            rw [c1pre, hr1, r2, hrb0, hrbpre, iterAfterBody_pre]
             split
             · cases hio : iterAfterBody rb with
               | abort st => rfl
@@ -462,7 +472,29 @@ theorem interp_frame (reg : Registry) : ∀ f : Nat,
         rw [writeNode, writeNode]
         show (⟨{ (s.pre pl po k) with c := (counterNode (s.c.pre pl) cs).1 }, (counterNode (s.c.pre pl) cs).2⟩ : Res) = _
         rw [counterNode_pre]; rfl
-      | condOK => intro s h; rw [writeNode]; exact ⟨h, fun _ _ _ => by rw [writeNode]; rfl⟩
+      | condOK kk child =>
+        intro s h
+        by_cases he : kk.cd.hlp.isEmpty = true
+        · constructor
+          · rw [writeNode]; simp only [he, if_true]; exact h
+          · intro pl po k; rw [writeNode, writeNode]; simp only [he, if_true]; rfl
+        · have hK : ∀ o : CondOut, FrameOK (fun s1 : St => match o with
+              | .stop e => fail s1 e
+              | .branch r pending => match (if r then child[0]? else child[1]?) with
+                | some n => writeNode reg f n s1
+                | none => ⟨s1, pending⟩) := by
+            intro o
+            cases o with
+            | stop e => exact FrameOK.fail_ e
+            | branch r pending =>
+              simp only
+              cases (if r then child[0]? else child[1]?) with
+              | none => intro s h; exact ⟨h, fun _ _ _ => rfl⟩
+              | some n => exact ihN n
+          have key := frame_ctxStep (fun c => evalCondOK c kk) (fun pl c => evalCondOK_pre pl c kk) _ hK s h
+          constructor
+          · rw [writeNode]; simp only [he, Bool.false_eq_true, if_false]; exact key.1
+          · intro pl po k; rw [writeNode, writeNode]; simp only [he, Bool.false_eq_true, if_false]; exact key.2 pl po k
       | cond cd child =>
         intro s h
         have hK : ∀ o : CondOut, FrameOK (fun s1 : St => match o with
